@@ -1,5 +1,5 @@
 (** C19 — pinned statements. Nothing but statements, [exact], and assumption audits. *)
-From TU Require Import Base C19_Model C19_Proofs C19_Count C19_Check.
+From TU Require Import Base C19_Model C19_Proofs C19_Count C19_Check C19_Delta.
 From Coq Require Import Permutation.
 Open Scope N_scope.
 
@@ -127,6 +127,40 @@ Theorem checked_table : forall v out, check_C19 v out = true ->
 Proof. exact checked_table_l. Qed.
 Print Assumptions checked_table.
 
+(** The incremental statistics (stretch goal of DESIGN 7/C19).  Per changed word:
+    walking the old word ([old_scan], decrements) and the new word ([new_scan],
+    increments) as [update_stats] does turns the word's pair-occurrence counts
+    ([BytePairInfo::words], weight 1) into the recount of the new word — provided
+    the merged token is new in that word and tokens are non-empty. *)
+Theorem update_delta : forall (p : pair) w, fst p <> [] -> snd p <> [] -> ~ In (merge p) w ->
+  forall q, upd_word p w 1 (fupd (fun x => count_pair x (word_pairs w)) p 0) q
+            = count_pair q (word_pairs (replace_in_word p w)).
+Proof. exact update_delta_l. Qed.
+Print Assumptions update_delta.
+
+(** Whole vocabulary: [replace_pair] + [update_stats] applied to recounted
+    frequencies give the recounted frequencies of the new vocabulary (truncated
+    subtraction never saturates except on the merged pair itself), and visiting
+    only the words listed for the pair gives the same vocabulary as replacing everywhere. *)
+Theorem update_recount : forall c p, Fresh c p ->
+  (forall q, upd_freq c p (pair_freq c) q = pair_freq (apply_pair c p) q) /\ upd_vocab c p = apply_pair c p.
+Proof. exact update_recount_l. Qed.
+Print Assumptions update_recount.
+
+(** Freshness holds at every step of a run whose entries are spelled differently … *)
+Theorem run_fresh : forall c k ps, CorpusOK [] c -> Run c k ps -> NoDup (map merge ps) ->
+  forall i p, nth_error ps i = Some p -> Fresh (state_after c (firstn i ps)) p.
+Proof. exact run_fresh_l. Qed.
+Print Assumptions run_fresh.
+
+(** … hence every run of the incremental trainer (any choice among the pairs whose
+    recorded frequency is positive and maximal) that spells its entries
+    differently is an accepted run of the recount specification. *)
+Theorem inc_refines : forall c F k ps, IRun c F k ps -> (forall q, F q = pair_freq c q) ->
+  forall tbl, CorpusOK tbl c -> NoDup (tbl ++ map merge ps) -> Run c k ps.
+Proof. exact inc_refines_l. Qed.
+Print Assumptions inc_refines.
+
 (** Non-vacuity.  Corpus "ab ab", 64 merges: the run [ab; " ab"] is accepted and
     stops early because the corpus is exhausted; the table the pinned tree wrote
     (defect D8: {" ab":1, ab:63}) is rejected. *)
@@ -146,4 +180,16 @@ Proof. vm_compute. reflexivity. Qed.
 (** an overlapping pair: "aaa" holds (a,a) twice, replacement yields [aa; a] *)
 Example ex_overlap : pair_freq [([[97]; [97]; [97]], 1)] ([97], [97]) = 2
   /\ replace_in_word ([97], [97]) [[97]; [97]; [97]] = [[97; 97]; [97]].
+Proof. vm_compute. split; reflexivity. Qed.
+(** [Fresh] is satisfiable, and it is needed: if the merged token already occurs in
+    the word ([ab; c; a; b], merging (a,b)), the new-word scan counts (ab,c) twice. *)
+Example ex_fresh : Fresh [([[97]; [98]], 1)] ([97], [98]).
+Proof.
+  split; [discriminate|]. split; [discriminate|]. intros w k [H|[]] Hin. injection H as <- <-.
+  cbn in Hin. destruct Hin as [H|[H|[]]]; discriminate.
+Qed.
+Example ex_fresh_needed :
+  let w := [[97; 98]; [99]; [97]; [98]] in let p := ([97], [98]) in
+  upd_word p w 1 (fupd (fun x => count_pair x (word_pairs w)) p 0) ([97; 98], [99]) = 2
+  /\ count_pair ([97; 98], [99]) (word_pairs (replace_in_word p w)) = 1.
 Proof. vm_compute. split; reflexivity. Qed.
